@@ -7,6 +7,7 @@ mod p_c04;
 mod p_c05;
 mod p_c07;
 mod p_c08;
+mod p_c09;
 mod p_c19;
 mod delivery;
 mod spec;
@@ -81,6 +82,8 @@ fn main() {
                 "C05" => p_c05::generate(seed, tier, &mut sink),
                 "C07" => p_c07::generate(seed, tier, &mut sink),
                 "C08" => p_c08::generate(seed, tier, &mut sink),
+                "C09" => p_c09::generate_c09(seed, tier, &mut sink),
+                "C10" => p_c09::generate_c10(seed, tier, &mut sink),
                 "C19" => p_c19::generate(seed, tier, &mut sink),
                 _ => {
                     eprintln!("unknown property {}", prop);
